@@ -10,7 +10,7 @@ W="/tmp/ts-$seed-$prop"
 git -C /repo worktree remove --force "$W/repo" 2>/dev/null
 rm -rf "$W"; mkdir -p "$W"
 cleanup() { git -C /repo worktree remove --force "$W/repo" 2>/dev/null; rm -rf "$W"; git -C /repo worktree prune; }
-trap cleanup EXIT
+[ -n "${KEEP_SCRATCH:-}" ] || trap cleanup EXIT
 git -C /repo worktree add -q --detach "$W/repo" HEAD || exit 2
 if [ "$seed" != "none" ]; then
   git -C "$W/repo" apply "$patch" 2>/dev/null || git -C "$W/repo" apply --3way "$patch" >/dev/null 2>&1 || { echo "try_seed_scratch: $seed does not apply"; exit 3; }
